@@ -59,6 +59,9 @@ class Crash:
 
 
 class StreamTask:
+    """A consumer fed one sample per call.  ``stride`` s > 1 models a subscriber running at a lower rate: it
+    takes every s-th tick of the bus and its sampling period is s times the bus period."""
+
     def __init__(self, idx, spec, hist, dip, shared):
         self.idx = idx
         self.spec = spec
@@ -69,25 +72,31 @@ class StreamTask:
         self.dip = dip
         a_ref, m_ref = self.kind.refs(self.p, dip)
         self.key = W.chan_key(a_ref, m_ref)
+        self.stride = max(1, int(spec.get('stride', 1)))
+        self.n_own = len(range(0, hist.n, self.stride))
+        self.dt = hist.dt * self.stride
         self.first = 1 if self.kind.recursive else 0   # single-frame estimators also see tick 0
-        self.pos = self.first            # next tick to consume
-        self.out = [None] * hist.n       # per tick: ndarray | Refusal | Crash | None
+        self.pos = self.first            # next own sample to consume (bus tick = pos * stride)
+        self.out = [None] * self.n_own   # per own sample: ndarray | Refusal | Crash | None
         self.q = None
         self.inst = None
         self.dead = False
-        self.rng_before = {}             # tick -> library RNG state (RNG consumers only)
-        self.dt_eff = C.effective_dt(self.p, hist.dt)
+        self.rng_before = {}             # own sample index -> library RNG state (RNG consumers only)
+        self.dt_eff = C.effective_dt(self.p, self.dt)
 
     def start(self, q_init):
-        self.inst = self.kind.make(self.p, self.hist.dt, self.dip)
+        self.inst = self.kind.make(self.p, self.dt, self.dip)
         self.q = None if q_init is None else np.array(q_init, dtype=float)
         self.out[0] = None if self.q is None else self.q.copy()
 
     def runnable(self, T):
-        return (not self.dead) and self.pos <= T
+        return (not self.dead) and self.pos < self.n_own and self.pos * self.stride <= T
 
     def done(self):
-        return self.dead or self.pos >= self.hist.n
+        return self.dead or self.pos >= self.n_own
+
+    def bus_tick(self):
+        return self.pos * self.stride
 
     def samples(self, k):
         h = self.hist
@@ -97,30 +106,31 @@ class StreamTask:
         return g, a, m
 
     def step(self, log):
-        k = self.pos
+        j = self.pos
+        k = j * self.stride
         g, a, m = self.samples(k)
         if self.kind.uses_library_rng:
-            self.rng_before[k] = np.random.get_state()
+            self.rng_before[j] = np.random.get_state()
         try:
-            r = self.kind.step(self.inst, self.p, self.q, g, a, m, C.call_dt(self.p, self.hist.dt))
-            r = out_to_array(r)
-            self.out[k] = r
+            r = self.kind.step(self.inst, self.p, self.q, g, a, m, C.call_dt(self.p, self.dt))
+            self.out[j] = out_to_array(r)
             if r is not None and self.kind.recursive:
-                self.q = r
-            log.add('step', self.idx, k, r if r is not None else 'None')
+                # the application feeds what it was handed straight back (no defensive copy), as in the docs' loops
+                self.q = r if isinstance(r, np.ndarray) else self.out[j]
+            log.add('step', self.idx, j, self.out[j] if self.out[j] is not None else 'None')
         except np.linalg.LinAlgError as e:
-            self.out[k] = Crash(e)
+            self.out[j] = Crash(e)
             if self.kind.recursive:
                 self.dead = True
-            log.add('crash', self.idx, k, type(e).__name__)
+            log.add('crash', self.idx, j, type(e).__name__)
         except ValueError as e:
-            self.out[k] = Refusal(str(e)[:200])
-            log.add('refuse', self.idx, k, type(e).__name__)
+            self.out[j] = Refusal(str(e)[:200])
+            log.add('refuse', self.idx, j, type(e).__name__)
         except Exception as e:          # noqa: BLE001 - a crash of the consumer is data
-            self.out[k] = Crash(e)
+            self.out[j] = Crash(e)
             if self.kind.recursive:
                 self.dead = True
-            log.add('crash', self.idx, k, type(e).__name__)
+            log.add('crash', self.idx, j, type(e).__name__)
         self.pos += 1
 
 
@@ -269,7 +279,7 @@ class Pipeline:
         while True:
             actions = []
             live_stream = [t for t in self.tasks if isinstance(t, StreamTask) and not t.done()]
-            min_pos = min((max(t.pos, 1) for t in live_stream), default=n)
+            min_pos = min((max(t.pos, 1) * t.stride for t in live_stream), default=n)
             if T < n - 1 and (T + 1 - min_pos) < lag_bound:
                 actions.append(('publish', None))
             for t in self.tasks:
